@@ -1,11 +1,201 @@
 (* Properties.v — the property theorems, and nothing else.  Each is closed by [exact <lemma>] and followed
    by Print Assumptions; the check driver reads the build log of this file.  coq/OBLIGATIONS.json lists
-   which theorems belong to which property. *)
-From Coq Require Import ZArith List.
-From GB Require Import Model Spec Inv Order OrderProof.
+   which theorems belong to which property.  K, V and the order ltb are arbitrary: the theorems hold for
+   every key type whose comparison is a strict weak order (SWO), hence for all six Go tree types (C11). *)
+From Coq Require Import ZArith NArith List Bool.
+From GB Require Import Model Spec Inv Order OrderProof SearchProof SpecLaws InvProof SearchScanProof
+     UpsertProof DeleteProof HistoryProof KeyOrders.
 Import ListNotations.
+Open Scope nat_scope.
 
-(* ---------- C12: constructors accept exactly the powers of two >= 2 ---------- *)
+(* ====================== C01: single-threaded use refines a map ====================== *)
+
+(* every finite history of Insert/Update/Delete/Search from the empty tree, at every even order >= 4 (and
+   at order 2 when the history has no Delete): no operation panics (Ok), every observation (Update's
+   callback argument, Search's result) is the ideal map's, the contents are the ideal map's, and the shape
+   invariant holds at the end (hence after every prefix) *)
+Theorem C01_refines_map :
+  forall (K V : Type) (ltb : K -> K -> bool), SWO ltb ->
+  forall (order : nat) (ops : list (op K V)), order_ok order ops ->
+  exists t, run_tree ltb order (Leaf []) ops = Ok (t, snd (run_spec ltb [] ops)) /\
+            entries t = fst (run_spec ltb [] ops) /\ Inv ltb order t.
+Proof. exact history_refines. Qed.
+Print Assumptions C01_refines_map.
+
+(* the same from any tree satisfying the invariant (every reachable tree does) *)
+Theorem C01_refines_map_from :
+  forall (K V : Type) (ltb : K -> K -> bool), SWO ltb ->
+  forall (order : nat) (ops : list (op K V)) (t : tree K V), order_ok order ops -> Inv ltb order t ->
+  exists t', run_tree ltb order t ops = Ok (t', snd (run_spec ltb (entries t) ops)) /\
+             entries t' = fst (run_spec ltb (entries t) ops) /\ Inv ltb order t'.
+Proof. exact run_refines. Qed.
+Print Assumptions C01_refines_map_from.
+
+(* the specification is an ideal map *)
+Theorem C01_spec_lookup_put_same :
+  forall (K V : Type) (ltb : K -> K -> bool), SWO ltb ->
+  forall k f (m : list (K * V)), asc ltb (map fst m) -> lookup ltb k (put ltb k f m) = Some (f (lookup ltb k m)).
+Proof. exact lookup_put_same. Qed.
+Print Assumptions C01_spec_lookup_put_same.
+
+Theorem C01_spec_lookup_put_other :
+  forall (K V : Type) (ltb : K -> K -> bool), SWO ltb ->
+  forall k k' f (m : list (K * V)), asc ltb (map fst m) -> ~ eqv ltb k k' -> lookup ltb k (put ltb k' f m) = lookup ltb k m.
+Proof. exact lookup_put_other. Qed.
+Print Assumptions C01_spec_lookup_put_other.
+
+Theorem C01_spec_lookup_erase_same :
+  forall (K V : Type) (ltb : K -> K -> bool), SWO ltb ->
+  forall k (m : list (K * V)), asc ltb (map fst m) -> lookup ltb k (erase ltb k m) = None.
+Proof. exact lookup_erase_same. Qed.
+Print Assumptions C01_spec_lookup_erase_same.
+
+Theorem C01_spec_lookup_erase_other :
+  forall (K V : Type) (ltb : K -> K -> bool), SWO ltb ->
+  forall k k' (m : list (K * V)), asc ltb (map fst m) -> ~ eqv ltb k k' -> lookup ltb k (erase ltb k' m) = lookup ltb k m.
+Proof. exact lookup_erase_other. Qed.
+Print Assumptions C01_spec_lookup_erase_other.
+
+(* ====================== C02: a scan yields exactly the pairs >= start ====================== *)
+
+Theorem C02_scan_exact :
+  forall (K V : Type) (ltb : K -> K -> bool), SWO ltb ->
+  forall (order : nat) (k : K) (t : tree K V), Inv ltb order t -> scan ltb k t = Ok (from ltb k (entries t)).
+Proof. exact scan_correct. Qed.
+Print Assumptions C02_scan_exact.
+
+Theorem C02_scan_after_any_history :
+  forall (K V : Type) (ltb : K -> K -> bool), SWO ltb ->
+  forall (order : nat) (ops : list (op K V)) (k : K), order_ok order ops ->
+  exists t, run_tree ltb order (Leaf []) ops = Ok (t, snd (run_spec ltb [] ops)) /\
+            scan ltb k t = Ok (from ltb k (fst (run_spec ltb [] ops))).
+Proof. exact history_scan. Qed.
+Print Assumptions C02_scan_after_any_history.
+
+Theorem C02_cursor_prefix :
+  forall (K V : Type) (ltb : K -> K -> bool), SWO ltb ->
+  forall (order : nat) (ops : list (op K V)) (k : K) (n : nat), order_ok order ops ->
+  exists t, run_tree ltb order (Leaf []) ops = Ok (t, snd (run_spec ltb [] ops)) /\
+            scan_n ltb k n t = Ok (firstn n (from ltb k (fst (run_spec ltb [] ops)))).
+Proof. exact history_cursor_prefix. Qed.
+Print Assumptions C02_cursor_prefix.
+
+(* what [from] is: exactly the stored pairs whose key is not below the start, in strictly ascending order *)
+Theorem C02_from_exactly :
+  forall (K V : Type) (ltb : K -> K -> bool), SWO ltb ->
+  forall k e (m : list (K * V)), asc ltb (map fst m) -> (In e (from ltb k m) <-> In e m /\ ltb (fst e) k = false).
+Proof. exact from_In. Qed.
+Print Assumptions C02_from_exactly.
+
+Theorem C02_from_ascending :
+  forall (K V : Type) (ltb : K -> K -> bool),
+  forall k (m : list (K * V)), asc ltb (map fst m) -> asc ltb (map fst (from ltb k m)).
+Proof. exact from_asc. Qed.
+Print Assumptions C02_from_ascending.
+
+Theorem C02_start_above_everything :
+  forall (K V : Type) (ltb : K -> K -> bool),
+  forall k (m : list (K * V)), asc ltb (map fst m) -> Forall (fun e => ltb (fst e) k = true) m -> from ltb k m = [].
+Proof. exact from_nil_above. Qed.
+Print Assumptions C02_start_above_everything.
+
+Theorem C02_contents_ascending :
+  forall (K V : Type) (ltb : K -> K -> bool), SWO ltb ->
+  forall t : tree K V, ordered ltb t -> asc ltb (map fst (entries t)).
+Proof. exact entries_asc. Qed.
+Print Assumptions C02_contents_ascending.
+
+(* ====================== C05 (sequential half): Update is read-modify-write ====================== *)
+
+(* Update hands the callback the value currently bound to the key (None when absent), stores the callback's
+   result, leaves every other binding alone (by the C01_spec theorems), on every path (append, replace, insert in the
+   middle, with or without splits) *)
+Theorem C05_update_sequential :
+  forall (K V : Type) (ltb : K -> K -> bool), SWO ltb ->
+  forall (order : nat) (k : K) (f : option V -> V) (t : tree K V),
+  2 <= order -> Nat.even order = true -> Inv ltb order t ->
+  exists t', upsert ltb order k f t = Ok (t', lookup ltb k (entries t)) /\
+             entries t' = put ltb k f (entries t) /\ Inv ltb order t'.
+Proof. exact upsert_spec. Qed.
+Print Assumptions C05_update_sequential.
+
+(* ====================== C08 (sequential): shape invariants after every operation ====================== *)
+
+Theorem C08_inv_after_every_history :
+  forall (K V : Type) (ltb : K -> K -> bool), SWO ltb ->
+  forall (order : nat) (ops : list (op K V)), order_ok order ops ->
+  exists t, run_tree ltb order (Leaf []) ops = Ok (t, snd (run_spec ltb [] ops)) /\
+            entries t = fst (run_spec ltb [] ops) /\ Inv ltb order t.
+Proof. exact history_refines. Qed.
+Print Assumptions C08_inv_after_every_history.
+
+Theorem C08_delete_preserves :
+  forall (K V : Type) (ltb : K -> K -> bool), SWO ltb ->
+  forall (order : nat) (k : K) (t : tree K V), 4 <= order -> Nat.even order = true -> Inv ltb order t ->
+  exists t', delete ltb order k t = Ok t' /\ entries t' = erase ltb k (entries t) /\ Inv ltb order t'.
+Proof. exact delete_spec. Qed.
+Print Assumptions C08_delete_preserves.
+
+(* the executable checker run on implementation snapshots decides exactly the invariant *)
+Theorem C08_checker_certified :
+  forall (K V : Type) (ltb : K -> K -> bool) (order : nat) (t : tree K V), inv_b ltb order t = true <-> Inv ltb order t.
+Proof. exact inv_b_iff. Qed.
+Print Assumptions C08_checker_certified.
+
+(* the literal binary search terminates within its fuel, never indexes out of range, returns the clamped
+   position on every ascending slice (index lookups agree with the contents) *)
+Theorem C08_binary_search_ge :
+  forall (K : Type) (ltb : K -> K -> bool), SWO ltb ->
+  forall key vs, asc ltb vs -> search_ge ltb key vs = Ok (ge_spec K ltb key vs).
+Proof. exact search_ge_spec. Qed.
+Print Assumptions C08_binary_search_ge.
+
+Theorem C08_binary_search_le :
+  forall (K : Type) (ltb : K -> K -> bool), SWO ltb ->
+  forall key vs, asc ltb vs -> search_le ltb key vs = Ok (le_spec K ltb key vs).
+Proof. exact search_le_spec. Qed.
+Print Assumptions C08_binary_search_le.
+
+(* ====================== C11: the whole key domain; ComparableTree uses only Less ====================== *)
+
+(* integers of any width (extremes included): Z with < *)
+Theorem C11_integer_keys :
+  forall (V : Type) (order : nat) (ops : list (op Z V)), order_ok order ops ->
+  exists t, run_tree Z.ltb order (Leaf []) ops = Ok (t, snd (run_spec Z.ltb [] ops)) /\
+            entries t = fst (run_spec Z.ltb [] ops) /\ Inv Z.ltb order t.
+Proof. exact (fun V => history_refines Z V Z.ltb Z_SWO). Qed.
+Print Assumptions C11_integer_keys.
+
+(* strings: byte sequences in lexicographic order (the empty string, prefixes of one another, 0xFF bytes) *)
+Theorem C11_string_keys :
+  forall (V : Type) (order : nat) (ops : list (op (list N) V)), order_ok order ops ->
+  exists t, run_tree lex_ltb order (Leaf []) ops = Ok (t, snd (run_spec lex_ltb [] ops)) /\
+            entries t = fst (run_spec lex_ltb [] ops) /\ Inv lex_ltb order t.
+Proof. exact (fun V => history_refines (list N) V lex_ltb lex_SWO). Qed.
+Print Assumptions C11_string_keys.
+
+(* a Comparable whose equivalence is coarser than equality: two keys denote the same entry exactly when
+   neither is Less than the other (the spec's put/lookup/erase are defined through ltb only) *)
+Theorem C11_coarse_comparable_keys :
+  forall (V : Type) (order : nat) (ops : list (op (Z * Z) V)), order_ok order ops ->
+  exists t, run_tree fst_ltb order (Leaf []) ops = Ok (t, snd (run_spec fst_ltb [] ops)) /\
+            entries t = fst (run_spec fst_ltb [] ops) /\ Inv fst_ltb order t.
+Proof. exact (fun V => history_refines (Z * Z) V fst_ltb fst_SWO). Qed.
+Print Assumptions C11_coarse_comparable_keys.
+
+Theorem C11_lookup_respects_equivalence :
+  forall (K V : Type) (ltb : K -> K -> bool), SWO ltb ->
+  forall k k' (m : list (K * V)), eqv ltb k k' -> lookup ltb k m = lookup ltb k' m.
+Proof. exact lookup_eqv. Qed.
+Print Assumptions C11_lookup_respects_equivalence.
+
+(* the placeholder written by  append(s, zero); copy(...)  is overwritten: never observable *)
+Theorem C11_placeholder_unobservable :
+  forall (A : Type) (zero : A) (i : nat) (x : A) (l : list A), i <= length l -> slice_insert zero i x l = ins_nth i x l.
+Proof. exact @slice_insert_spec. Qed.
+Print Assumptions C11_placeholder_unobservable.
+
+(* ====================== C12: constructors accept exactly the powers of two >= 2 ====================== *)
 Theorem C12_check_order : forall o : Z, (- 2 ^ 63 <= o < 2 ^ 63)%Z ->
   (check_order o = true <-> exists n : Z, (1 <= n <= 62)%Z /\ o = (2 ^ n)%Z).
 Proof. exact check_order_int64. Qed.
@@ -19,3 +209,9 @@ Theorem C12_no_wrap : forall o : Z, (- 2 ^ 63 <= o < 2 ^ 63)%Z -> (2 <=? o)%Z = 
   (- 2 ^ 63 <= o - 1 < 2 ^ 63)%Z /\ (0 <= o - 1)%Z.
 Proof. exact check_order_no_wrap. Qed.
 Print Assumptions C12_no_wrap.
+
+(* every accepted order is usable: an empty tree satisfies the invariant, and by C01 every history then works *)
+Theorem C12_new_tree_usable :
+  forall (K V : Type) (ltb : K -> K -> bool) (order : nat), Inv ltb order (Leaf (@nil (K * V))).
+Proof. exact Inv_empty. Qed.
+Print Assumptions C12_new_tree_usable.
